@@ -847,9 +847,9 @@ func unop(instr *ssa.UnOp, x value) value {
 	if sx, ok := x.(symv); ok {
 		switch instr.Op {
 		case token.NOT:
-			return symv{'B', "(not " + sx.term + ")"}
+			return symv{sort: 'B', term: "(not " + sx.term + ")"}
 		case token.SUB:
-			return symv{'I', "(- " + sx.term + ")"}
+			return symv{sort: 'I', term: "(- " + sx.term + ")"}
 		}
 		panic("sym unop " + instr.Op.String())
 	}
@@ -1043,9 +1043,9 @@ func callBuiltin(caller *frame, callpos token.Pos, fn *ssa.Builtin, args []value
 		case chan value:
 			return len(x)
 		case symv:
-			return symv{'I', "(str.len " + x.term + ")"}
+			return symv{sort: 'I', term: "(str.len " + x.term + ")"}
 		case symbytes:
-			return symv{'I', "(str.len " + x.term + ")"}
+			return symv{sort: 'I', term: "(str.len " + x.term + ")"}
 		default:
 			panic(fmt.Sprintf("len: illegal operand: %T", x))
 		}
@@ -1543,7 +1543,15 @@ func symBinop(op token.Token, t types.Type, x, y value) value {
 	if sx != sy {
 		panic(engineUnsupported{fmt.Sprintf("symBinop %s on sorts %c,%c", op, sx, sy)})
 	}
-	b := func(f string) value { return symv{'B', "(" + f + " " + tx + " " + ty + ")"} }
+	if op == token.EQL || op == token.NEQ {
+		if r, ok := eqFromInt(x, y); ok {
+			if op == token.NEQ {
+				return notv(r)
+			}
+			return r
+		}
+	}
+	b := func(f string) value { return symv{sort: 'B', term: "(" + f + " " + tx + " " + ty + ")"} }
 	switch op {
 	case token.EQL:
 		if tx == ty {
@@ -1554,17 +1562,17 @@ func symBinop(op token.Token, t types.Type, x, y value) value {
 		if tx == ty {
 			return false
 		}
-		return symv{'B', "(not (= " + tx + " " + ty + "))"}
+		return symv{sort: 'B', term: "(not (= " + tx + " " + ty + "))"}
 	case token.ADD:
 		if sx == 'S' {
-			return symv{'S', "(str.++ " + tx + " " + ty + ")"}
+			return symv{sort: 'S', term: "(str.++ " + tx + " " + ty + ")"}
 		}
 		if sx == 'I' {
-			return symv{'I', "(+ " + tx + " " + ty + ")"}
+			return symv{sort: 'I', term: "(+ " + tx + " " + ty + ")"}
 		}
 	case token.SUB:
 		if sx == 'I' {
-			return symv{'I', "(- " + tx + " " + ty + ")"}
+			return symv{sort: 'I', term: "(- " + tx + " " + ty + ")"}
 		}
 	case token.LSS:
 		if sx == 'S' {
@@ -1578,12 +1586,12 @@ func symBinop(op token.Token, t types.Type, x, y value) value {
 		return b("<=")
 	case token.GTR:
 		if sx == 'S' {
-			return symv{'B', "(str.< " + ty + " " + tx + ")"}
+			return symv{sort: 'B', term: "(str.< " + ty + " " + tx + ")"}
 		}
 		return b(">")
 	case token.GEQ:
 		if sx == 'S' {
-			return symv{'B', "(str.<= " + ty + " " + tx + ")"}
+			return symv{sort: 'B', term: "(str.<= " + ty + " " + tx + ")"}
 		}
 		return b(">=")
 	case token.LAND, token.AND:
@@ -1625,7 +1633,7 @@ func symConv(ut_dst, ut_src types.Type, x value) value {
 		}
 	case symbytes:
 		if b, ok := ut_dst.(*types.Basic); ok && b.Info()&types.IsString != 0 {
-			return symv{'S', x.term}
+			return symv{sort: 'S', term: x.term}
 		}
 		if _, ok := ut_dst.(*types.Slice); ok {
 			return x
